@@ -19,6 +19,7 @@ pub mod ls;
 pub mod names;
 pub mod scan;
 pub mod tables;
+pub mod tstream;
 pub mod wf;
 pub mod xform;
 
@@ -32,6 +33,7 @@ pub fn replay_fn(kind: &str) -> Result<fn(&Value) -> Outcome> {
         "c31" => c31::replay,
         "c34" => c34::replay,
         "lsx" => ls::replay,
+        "tstream" => tstream::replay,
         "c19" => c19::replay,
         "c26" => c26::replay,
         "c25" => c25::replay,
